@@ -12,6 +12,7 @@ drivers/doe_driver.py (DOEDriver.run / _run_case / _parallel_generator).  Decide
 * C23.dvlevels  level lookup of a variable: int for all; dict -> [name], else ['default'], else default
 * C23.levels    the level list handed to the design function is built with the same per-variable
                 level function the table uses, repeated size times, in design-variable order
+* C23.order     sizes, level list, level-table rows and case assembly iterate the variables in one order
 * C23.design    Plackett-Burman / Box-Behnken codings are mapped one-to-one onto 0..levels-1
 * C23.lhs       Latin hypercube sample -> lower + s * (upper - lower) (polynomial identity), own
                 design columns per variable
@@ -93,11 +94,21 @@ def ctx_of(fn):
     return c
 
 
+def unwrap_iter(e):
+    """Strip order/materialisation wrappers: sorted(X), reversed(X), list(X), tuple(X) -> X."""
+    while isinstance(e, ast.Call) and isinstance(e.func, ast.Name) and \
+            e.func.id in ('sorted', 'reversed', 'list', 'tuple') and e.args:
+        e = e.args[0]
+    return e
+
+
 def is_items_loop(st):
-    """`for a, b in X.items():`"""
-    return isinstance(st, ast.For) and isinstance(st.target, ast.Tuple) and len(st.target.elts) == 2 and \
-        all(isinstance(e, ast.Name) for e in st.target.elts) and isinstance(st.iter, ast.Call) and \
-        astx.callee_attr(st.iter) == 'items' and not st.iter.args
+    """`for a, b in X.items():` (possibly through sorted()/reversed()/list())"""
+    if not (isinstance(st, ast.For) and isinstance(st.target, ast.Tuple) and len(st.target.elts) == 2 and
+            all(isinstance(e, ast.Name) for e in st.target.elts)):
+        return False
+    it = unwrap_iter(st.iter)
+    return isinstance(it, ast.Call) and astx.callee_attr(it) == 'items' and not it.args
 
 
 def is_range_loop(st):
@@ -1561,31 +1572,183 @@ def check_global_seed(C, out, fn, targets, what):
     return True
 
 
+# --------------------------------------------------------------------------- where does the randomness come from
+_RNG_CTORS = ('RandomState', 'default_rng', 'Generator')
+
+
+def is_rng_ctor(e):
+    return isinstance(e, ast.Call) and astx.callee_attr(e) in _RNG_CTORS
+
+
+def has_rng_ctor(e):
+    return any(is_rng_ctor(w) for w in ast.walk(e))
+
+
+def attr_stores(repo, rel, cls, attr):
+    """[(Func, Assign stmt)] of every `self.<attr> = ...` in the methods of cls (and nested functions)."""
+    out_ = []
+    for qn, f in repo.module(rel).funcs.items():
+        if not qn.startswith(cls + '.'):
+            continue
+        for st in astx.walk_stmts(f.node.body):
+            if isinstance(st, (ast.Assign, ast.AnnAssign, ast.AugAssign)):
+                if any(astx.path(t) == f'self.{attr}' for t in astx.assigned_targets(st)):
+                    out_.append((f, st))
+    return out_
+
+
+def classify_rng(repo, rel, cls, C, e, at, call_funcs, want_object=False, depth=0):
+    """Is `e` (evaluated at CFG node `at` of a function in call_funcs) a function of self._seed at call time?
+
+    Returns ('ok', text) | ('bad', text, node_or_None, key) | ('unsure', text).
+    want_object: e is used as a generator object (receiver of .uniform), so an int seed is not enough.
+    """
+    if depth > 6:
+        return ('unsure', 'definition chain too deep')
+    if isinstance(e, ast.Constant) and e.value is None:
+        return ('ok', 'None')
+    if seed_path(C, e, at):
+        if want_object:
+            return ('unsure', 'the seed itself is used as a generator object')
+        return ('ok', 'self._seed itself')
+    if isinstance(e, ast.IfExp):
+        rs = [classify_rng(repo, rel, cls, C, b, at, call_funcs, want_object, depth + 1) for b in (e.body, e.orelse)]
+        for r in rs:
+            if r[0] != 'ok':
+                return r
+        return ('ok', 'both branches: ' + ' / '.join(r[1] for r in rs))
+    if is_rng_ctor(e):
+        a = astx.arg(e, 0, 'seed')
+        if a is None or (isinstance(a, ast.Constant) and a.value is None):
+            return ('bad', f'`{astx.src(e)}` creates an unseeded generator: self._seed has no effect', None,
+                    'seed-forward')
+        if seed_path(C, a, at):
+            return ('ok', f'`{astx.src(e)}` built from self._seed at call time')
+        if isinstance(a, ast.Constant):
+            return ('bad', f'`{astx.src(e)}` uses a fixed seed instead of self._seed', None, 'seed-forward')
+        return ('unsure', f'seed of `{astx.src(e)}` not recognised')
+    if isinstance(e, ast.Constant):
+        return ('bad', f'fixed value `{astx.src(e)}` instead of self._seed', None, 'seed-forward')
+    if isinstance(e, ast.Name):
+        ds = C.rd.defs(at, e.id)
+        if not ds:
+            # module-level object
+            for st in repo.module(rel).tree.body:
+                if isinstance(st, ast.Assign) and any(astx.path(t) == e.id for t in st.targets):
+                    if has_rng_ctor(st.value):
+                        return ('bad', f'`{e.id}` is a module-level generator object (`{astx.src(st.value)}`) shared by '
+                                'all calls: its state advances with every use, so the second call of a seeded '
+                                'generator yields different cases', st, 'seed-stateful')
+            return ('unsure', f'`{e.id}` has no local definition')
+        v = C.rd.value(at, e.id)
+        if v is None:
+            return ('unsure', f'`{e.id}` has several definitions')
+        d = next(iter(ds))
+        if C.g.dominated_by(at, [d], labels=cfgm.noexc) is not None:
+            return ('unsure', f'`{e.id}` is not defined on every path')
+        return classify_rng(repo, rel, cls, C, v, d, call_funcs, want_object, depth + 1)
+    p = astx.path(e)
+    if isinstance(e, ast.Attribute) and p and p.startswith('self.') and p.count('.') == 1:
+        attr = e.attr
+        stores = attr_stores(repo, rel, cls, attr)
+        if not stores:
+            return ('unsure', f'self.{attr} is never assigned in {cls}')
+        inside = [(f, st) for f, st in stores if f.node in [cf.node for cf in call_funcs]]
+        outside = [(f, st) for f, st in stores if (f, st) not in inside]
+        for f, st in outside:
+            val = getattr(st, 'value', None)
+            if val is not None and has_rng_ctor(val):
+                return ('bad', f'self.{attr} is a generator object created once in {f.qualname} '
+                        f'(`{astx.src(st)}`) and reused by every call: its state advances with each use, so a seeded '
+                        'generator reproduces its cases only on the first call (a preview of the cases followed by '
+                        'run_driver, or two runs, give different designs)', st, 'seed-stateful', f)
+        if outside:
+            # plain alias of the integer seed stored by the constructor?
+            for f, st in outside:
+                val = getattr(st, 'value', None)
+                params = {a.arg for a in f.node.args.args + f.node.args.kwonlyargs}
+                if not (isinstance(val, ast.Name) and val.id in params and 'seed' in val.id) or want_object:
+                    return ('unsure', f'self.{attr} assigned in {f.qualname} from `{astx.src(val)}`')
+            if not inside:
+                return ('ok', f'self.{attr} holds the integer seed argument')
+        # assigned (also) inside the calling function: must be an unconditional rebuild before the use
+        if len(inside) != 1:
+            return ('unsure', f'self.{attr} assigned in several places')
+        f, st = inside[0]
+        if f.node is not C.fn.node:
+            # built by the (re)initialisation step of the iterator (e.g. _setup), used in another method
+            C = ctx_of(f)
+            at = C.g.exit
+        d = C.at(st)
+        if C.g.dominated_by(at, [d], labels=cfgm.noexc) is not None:
+            val = getattr(st, 'value', None)
+            if val is not None and has_rng_ctor(val):
+                return ('bad', f'self.{attr} is created lazily (`{astx.src(st)}` is skipped on some paths) and kept '
+                        'between calls: later calls continue the random stream instead of restarting from the seed',
+                        st, 'seed-stateful', f)
+            return ('unsure', f'self.{attr} is not rebuilt on every path')
+        return classify_rng(repo, rel, cls, C, st.value, d, call_funcs, want_object, depth + 1)
+    return ('unsure', f'`{astx.src(e)}` not recognised')
+
+
+def report_rng(out, fn, stmt, r, what):
+    """Turn a classify_rng result into a verdict; returns True for ok."""
+    if r[0] == 'ok':
+        return True
+    if r[0] == 'bad':
+        out.bad(r[4] if len(r) > 4 else fn, r[2] if r[2] is not None else stmt, f'{what}: {r[1]}', key=r[3])
+    else:
+        out.unsure(fn, stmt, f'{what}: {r[1]}')
+    return False
+
+
+def check_draws(repo, rel, cls, out, fn, draws, call_funcs, what):
+    """Draws made through a generator object (not np.random.*): the object must be rebuilt from self._seed per call.
+
+    Returns (global_draws, all_object_draws_ok)."""
+    C = ctx_of(fn)
+    glob, okobj = [], True
+    for c in draws:
+        recv = astx.receiver(c)
+        if (astx.path(recv) or '') in ('np.random', 'numpy.random'):
+            glob.append(c)
+            continue
+        st = astx.stmt_of(c)
+        r = classify_rng(repo, rel, cls, C, recv, C.at(st), call_funcs, want_object=True)
+        if not report_rng(out, fn, st, r, what):
+            okobj = False
+    return glob, okobj
+
+
 @rule('C23.seed', floor=4)
 def seed(repo, out):
-    """Seeded generators: np.random.seed(self._seed) dominates the first global draw whenever seed is not None; LHS forwards the seed to pydoe."""
+    """Seeded generators restart from self._seed on every call: global seeding dominates the first draw; generator objects / the value given to pydoe are built from self._seed at call time, never kept between calls."""
     # Uniform (DOEDriver): seed and draws in the same function
     fn = repo.func(DG, 'UniformGenerator.__call__')
     C = ctx_of(fn)
     draws = uniform_draws(fn)
     if not draws:
         raise AnalysisError(f'{fn.ident}: no draw')
-    glob = [c for c in draws if (astx.call_name(c) or '').split('.')[0] in _NP]
-    if len(glob) != len(draws):
-        out.unsure(fn, astx.stmt_of(draws[0]), 'draws do not use the numpy global generator')
-    else:
-        tg = [C.at(astx.stmt_of(c)) for c in glob]
-        if check_global_seed(C, out, fn, tg, 'UniformGenerator'):
-            out.ok(fn, astx.stmt_of(glob[0]), 'np.random.seed(self._seed) precedes every np.random.uniform when seed is '
-                   'not None')
+    glob, okobj = check_draws(repo, DG, 'UniformGenerator', out, fn, draws, [fn], 'UniformGenerator')
+    if okobj:
+        if glob:
+            tg = [C.at(astx.stmt_of(c)) for c in glob]
+            if check_global_seed(C, out, fn, tg, 'UniformGenerator'):
+                out.ok(fn, astx.stmt_of(glob[0]), 'np.random.seed(self._seed) precedes every np.random.uniform when '
+                       'seed is not None')
+        else:
+            out.ok(fn, astx.stmt_of(draws[0]), 'draws use a generator object rebuilt from self._seed in every call')
     # Uniform (AnalysisDriver): seed in _setup (run from __init__ and on reset), draws in __next__
     fs = repo.func(SU, 'UniformGenerator._setup')
     fnx = repo.func(SU, 'UniformGenerator.__next__')
     Cs = ctx_of(fs)
     dn = uniform_draws(fnx)
-    if not dn or any((astx.call_name(c) or '').split('.')[0] not in _NP for c in dn):
-        out.unsure(fnx, fnx.node, 'draws do not use the numpy global generator')
-    elif check_global_seed(Cs, out, fs, [Cs.g.exit], 'sampling UniformGenerator._setup'):
+    if not dn:
+        raise AnalysisError(f'{fnx.ident}: no draw')
+    glob, okobj = check_draws(repo, SU, 'UniformGenerator', out, fnx, dn, [fs, fnx], 'sampling UniformGenerator')
+    if okobj and not glob:
+        out.ok(fnx, astx.stmt_of(dn[0]), 'draws use a generator object rebuilt from self._seed by _setup')
+    elif okobj and check_global_seed(Cs, out, fs, [Cs.g.exit], 'sampling UniformGenerator._setup'):
         fi = repo.func(SU, 'UniformGenerator.__init__')
         Ci = ctx_of(fi)
         sup = [n for n in Ci.g.calling('__init__')]
@@ -1597,29 +1760,26 @@ def seed(repo, out):
             out.bad(fi, sets[0].ast, 'self._seed is stored after the base-class constructor ran _setup', key='seed-attr')
         else:
             out.ok(fs, fs.node, '_setup seeds the numpy global generator on every path when seed is not None')
-    # Latin hypercube: the seed must reach pydoe
+    # Latin hypercube: the seed must reach pydoe, as a function of self._seed evaluated at call time
     for rel, cls in LHS:
         (cf, call), _ = lhs_parts(repo, rel, cls)
         CC = ctx_of(cf)
-        at = CC.at(astx.stmt_of(call))
+        st = astx.stmt_of(call)
+        at = CC.at(st)
         kw = astx.kwarg(call, 'random_state')
         if kw is None:
             kw = astx.kwarg(call, 'seed')
         if kw is None:
             if any(k.arg is None for k in call.keywords):
-                out.unsure(cf, astx.stmt_of(call), 'lhs called with **kwargs')
+                out.unsure(cf, st, 'lhs called with **kwargs')
                 continue
-            out.bad(cf, astx.stmt_of(call), 'the seed is not passed to pydoe lhs (random_state=/seed=): lhs then draws '
+            out.bad(cf, st, 'the seed is not passed to pydoe lhs (random_state=/seed=): lhs then draws '
                     'from a fresh, unseeded generator, which np.random.seed does not control, so a seeded '
                     'LatinHypercubeGenerator is not reproducible', key='seed-forward')
             continue
-        if seed_path(CC, kw, at):
-            out.ok(cf, astx.stmt_of(call), 'self._seed is forwarded to pydoe lhs')
-        elif isinstance(kw, ast.Constant):
-            out.bad(cf, astx.stmt_of(call), f'pydoe lhs gets the fixed seed `{astx.src(kw)}` instead of self._seed',
-                    key='seed-forward')
-        else:
-            out.unsure(cf, astx.stmt_of(call), f'seed argument `{astx.src(kw)}` not recognised')
+        r = classify_rng(repo, rel, cls, CC, kw, at, [cf])
+        if report_rng(out, cf, st, r, f'{cls}: value given to pydoe lhs as `{astx.src(kw)}`'):
+            out.ok(cf, st, f'pydoe lhs is seeded per call: {r[1]}')
 
 
 # =========================================================================== DOEDriver
@@ -2159,6 +2319,144 @@ def dvlevels(repo, out):
                    '(5 scenarios evaluated)')
 
 
+# =========================================================================== iteration order of layout producers
+_REORDER = {'sorted': 'sorted', 'reversed': 'reversed', 'set': 'set', 'frozenset': 'set'}
+_KEEP = ('list', 'tuple', 'iter', 'dict', 'OrderedDict', 'enumerate')
+
+
+def order_key(C, e, at, depth=0):
+    """(wrappers, base path) of an iterable expression: which container, visited in which order."""
+    if depth > 8 or e is None:
+        return None
+    if isinstance(e, ast.Call):
+        cn = astx.call_name(e)
+        if isinstance(e.func, ast.Attribute) and e.func.attr in ('items', 'keys', 'values') and not e.args:
+            return order_key(C, e.func.value, at, depth + 1)
+        if cn in _REORDER and e.args:
+            k = order_key(C, e.args[0], at, depth + 1)
+            return None if k is None else ((_REORDER[cn],) + k[0], k[1])
+        if cn and cn.split('.')[-1] in _KEEP and len(e.args) >= 1:
+            return order_key(C, e.args[0], at, depth + 1)
+        return None
+    if isinstance(e, ast.Subscript) and isinstance(e.slice, ast.Slice):
+        k = order_key(C, e.value, at, depth + 1)
+        if k is None:
+            return None
+        st = e.slice.step
+        if st is None and e.slice.lower is None and e.slice.upper is None:
+            return k
+        if isinstance(st, ast.UnaryOp) and isinstance(st.op, ast.USub) and isinstance(st.operand, ast.Constant) and \
+                st.operand.value == 1 and e.slice.lower is None and e.slice.upper is None:
+            return (('reversed',) + k[0], k[1])
+        return (('sliced',) + k[0], k[1])
+    if isinstance(e, ast.Name):
+        ds = C.rd.defs(at, e.id)
+        if ds == {C.g.entry} or not ds:
+            return ((), e.id)
+        v = C.rd.value(at, e.id)
+        if v is None:
+            return None
+        return order_key(C, v, next(iter(ds)), depth + 1)
+    p = astx.path(e)
+    if p:
+        return ((), p)
+    return None
+
+
+def _norm_order(k):
+    """sorted(...) fixes the order whatever happened inside it."""
+    if k is None:
+        return None
+    w = []
+    for x in k[0]:
+        w.append(x)
+        if x in ('sorted', 'set'):
+            break
+    return (tuple(w), k[1])
+
+
+def _comp_iter(v):
+    """Iterable of the comprehension that builds a dict of sizes: dict([... for .. in X]) / {..: .. for .. in X}."""
+    if isinstance(v, ast.Call) and v.args and isinstance(v.args[0], (ast.ListComp, ast.GeneratorExp)):
+        v = v.args[0]
+    if isinstance(v, (ast.ListComp, ast.GeneratorExp, ast.DictComp)) and len(v.generators) == 1:
+        return v.generators[0]
+    return None
+
+
+@rule('C23.order', floor=9)
+def order(repo, out):
+    """Sizes, level list, level-table rows and case assembly all visit the design variables in the same order."""
+    for P in pydoes(repo):
+        C = P.C
+        prods = []     # (label, func, stmt, key, filtered)
+        # reference: the level-table loop
+        ref = _norm_order(order_key(C, P.t_dv.iter, C.at(P.t_dv)))
+        if ref is None:
+            out.unsure(P.fn, P.t_dv, f'iterable of the level-table loop not recognised: {astx.src(P.t_dv.iter)}')
+            continue
+        # self._sizes built in this function
+        for st in astx.walk_stmts(P.fn.node.body):
+            if isinstance(st, ast.Assign) and any(astx.path(t) == 'self._sizes' for t in st.targets):
+                gen = _comp_iter(st.value)
+                if gen is None:
+                    prods.append(('sizes of the variables (column layout of the design)', P.fn, st, None, False))
+                else:
+                    prods.append(('sizes of the variables (column layout of the design)', P.fn, st,
+                                  _norm_order(order_key(C, gen.iter, C.at(st))), bool(gen.ifs)))
+        if not prods:
+            out.unsure(P.fn, P.fn.node, 'self._sizes is not built in this function')
+            continue
+        # case assembly loops
+        seen = set()
+        for st, off_e, idx_e in P.reads:
+            dv = next((l for l in C.loops_of(st) if is_items_loop(l)), None)
+            if dv is not None and id(dv) not in seen:
+                seen.add(id(dv))
+                prods.append(('case assembly', P.fn, dv, _norm_order(order_key(C, dv.iter, C.at(dv))), False))
+        # level list: iterates self._sizes, so it inherits the order of the sizes dict
+        fa = repo.func(P.rel, f'{P.cls}._get_all_levels')
+        CA = ctx_of(fa)
+        for w_ in astx.walk(fa.node):
+            if isinstance(w_, (ast.ListComp, ast.GeneratorExp)) and len(w_.generators) == 1:
+                gen = w_.generators[0]
+                k = order_key(CA, gen.iter, CA.at(astx.stmt_of(w_)))
+                if k is not None and k[1] == 'self._sizes' and prods[0][3] is not None:
+                    # the dict of sizes keeps the order in which it was built (above)
+                    k = _norm_order((k[0] + prods[0][3][0], prods[0][3][1]))
+                    prods.append(('level list of the design', fa, astx.stmt_of(w_), k, bool(gen.ifs)))
+                else:
+                    prods.append(('level list of the design', fa, astx.stmt_of(w_), None, False))
+        # sampling twin: values are matched to names positionally by AnalysisGenerator.__next__
+        if P.rel == SP:
+            AG = 'openmdao/drivers/analysis_generator.py'
+            fx = repo.func(AG, 'AnalysisGenerator.__next__')
+            CX = ctx_of(fx)
+            lps = [st for st in astx.walk_stmts(fx.node.body) if isinstance(st, ast.For)]
+            if len(lps) != 1:
+                out.unsure(fx, fx.node, 'expected one loop naming the values')
+            else:
+                prods.append(('naming of the case values', fx, lps[0],
+                              _norm_order(order_key(CX, lps[0].iter, CX.at(lps[0]))), False))
+        out.ok(P.fn, P.t_dv, f'level-table rows follow `{astx.src(P.t_dv.iter)}`')
+        for label, f, st, k, filt in prods:
+            if k is None:
+                out.unsure(f, st, f'{label}: iterable not recognised')
+            elif k[1] != ref[1]:
+                out.unsure(f, st, f'{label}: iterates `{k[1]}`, the level table iterates `{ref[1]}`')
+            elif k[0] != ref[0] or filt:
+                how = '/'.join(k[0]) or 'plain'
+                if filt and k[0] == ref[0]:
+                    how = 'filtered'
+                out.bad(f, st, f'{label} visits the design variables in {how} order while the level table visits them '
+                        f'in {"/".join(ref[0]) or "declaration"} order: row/column `off` of the design then belongs to '
+                        'one variable in the design matrix and to another in the level table, so a variable is '
+                        'indexed with the level count of another one (NaN / out-of-bounds values, levels never '
+                        'reached) whenever names are not declared in that order', key='order-' + label.split()[0])
+            else:
+                out.ok(f, st, f'{label}: same order as the level table')
+
+
 # =========================================================================== self-test (part 1: pyDOE)
 _TAB_DG = ("            for k in range(size):\n"
            "                lower = meta['lower']\n"
@@ -2379,4 +2677,54 @@ selftest(
            "        for name, meta in design_vars.items():\n            for k in range(size):", 'C23.table'),
     Mutant('table-range-off-by-one', SP, "                for k in range(size):\n", "                for k in range(size - 1):\n", 'C23.table'),
     Twin('twin-table-size-inline', DG, "            size = _get_size(meta)\n\n            for k in range(size):", "            nel = _get_size(meta)\n\n            for k in range(nel):"),
+)
+
+
+_SIZES_DG = "for name, meta in design_vars.items()])\n        size = sum(self._sizes.values())"
+_LHS_RS = "                        random_state=self._seed)\n\n        # yield desvar values"
+selftest(
+    'C23',
+    # ---- order (seed 1 shape and relatives)
+    Mutant('order-sizes-sorted', DG, _SIZES_DG, "for name, meta in sorted(design_vars.items())])\n        size = sum(self._sizes.values())", 'C23.order'),
+    Mutant('order-assembly-reversed', DG, "            row = 0\n            for name, meta in design_vars.items():\n                size_i",
+           "            row = 0\n            for name, meta in reversed(design_vars.items()):\n                size_i", 'C23.order'),
+    Mutant('order-levels-sorted', SP, "for k, v in sizes.items()], [])", "for k, v in sorted(sizes.items())], [])", 'C23.order'),
+    Mutant('order-table-sorted-sampling', SP, "        row = 0\n        for name, meta in factors.items():\n            size = self._sizes[name]",
+           "        row = 0\n        for name, meta in sorted(factors.items()):\n            size = self._sizes[name]", 'C23.order'),
+    Mutant('order-naming-sorted', SP, "for name, meta in factors.items():\n                size_i", "for name, meta in factors.items():\n                size_i", 'C23.order',
+           also=[('openmdao/drivers/analysis_generator.py', "for i, name in enumerate(self._var_dict.keys()):", "for i, name in enumerate(sorted(self._var_dict.keys())):")]),
+    Twin('twin-order-keys-view', DG, _SIZES_DG, "for name, meta in list(design_vars.items())])\n        size = sum(self._sizes.values())"),
+    Twin('twin-order-all-sorted', DG, _SIZES_DG, "for name, meta in sorted(design_vars.items())])\n        size = sum(self._sizes.values())",
+         also=[(DG, "        row = 0\n        for name, meta in design_vars.items():\n            size = _get_size(meta)",
+                "        row = 0\n        for name, meta in sorted(design_vars.items()):\n            size = _get_size(meta)"),
+               (DG, "            row = 0\n            for name, meta in design_vars.items():\n                size_i",
+                "            row = 0\n            for name, meta in sorted(design_vars.items()):\n                size_i")]),
+    # ---- stateful random generators (seed 2 shape and relatives)
+    Mutant('seed-lhs-state-in-init', DG, "        self._iterations = iterations\n        self._seed = seed\n\n    def __call__",
+           "        self._iterations = iterations\n        self._seed = seed\n        self._random_state = None if seed is None else np.random.RandomState(seed)\n\n    def __call__", 'C23.seed',
+           also=[(DG, _LHS_RS, "                        random_state=self._random_state)\n\n        # yield desvar values")]),
+    Mutant('seed-lhs-state-in-init-sampling', SP, "        self._seed = seed\n\n        try:\n            from pydoe import lhs",
+           "        self._seed = seed\n        self._rs = np.random.RandomState(seed)\n\n        try:\n            from pydoe import lhs", 'C23.seed',
+           also=[(SP, "                        random_state=self._seed)", "                        random_state=self._rs)")]),
+    Mutant('seed-lhs-lazy-state', DG, "        # generate design\n        doe = self._lhs(size, samples=self._samples,",
+           "        if getattr(self, '_rs', None) is None:\n            self._rs = np.random.RandomState(self._seed)\n        # generate design\n        doe = self._lhs(size, samples=self._samples,", 'C23.seed',
+           also=[(DG, _LHS_RS, "                        random_state=self._rs)\n\n        # yield desvar values")]),
+    Mutant('seed-uniform-state-in-init', DG, "        self._num_samples = num_samples\n        self._seed = seed\n\n    def __call__",
+           "        self._num_samples = num_samples\n        self._seed = seed\n        self._rng = np.random.RandomState(seed)\n\n    def __call__", 'C23.seed',
+           also=[(DG, "np.random.uniform(lower, upper)", "self._rng.uniform(lower, upper)")]),
+    Mutant('seed-uniform-module-rng', DG, "_LEVELS = 2  # default number of levels for pyDOE generators\n",
+           "_LEVELS = 2  # default number of levels for pyDOE generators\n_RNG = np.random.RandomState(0)\n", 'C23.seed',
+           also=[(DG, "np.random.uniform(lower, upper)", "_RNG.uniform(lower, upper)")]),
+    Mutant('seed-uniform-sampling-state-in-init', SU, "        self._seed = seed\n        self._sizes = sizes = {}",
+           "        self._seed = seed\n        self._rng = np.random.default_rng(seed)\n        self._sizes = sizes = {}", 'C23.seed',
+           also=[(SU, "np.random.uniform(meta['lower']", "self._rng.uniform(meta['lower']")]),
+    Twin('twin-seed-lhs-local-state', DG, "        # generate design\n        doe = self._lhs(size, samples=self._samples,",
+         "        rs = None if self._seed is None else np.random.RandomState(self._seed)\n        # generate design\n        doe = self._lhs(size, samples=self._samples,",
+         also=[(DG, _LHS_RS, "                        random_state=rs)\n\n        # yield desvar values")]),
+    Twin('twin-seed-uniform-local-rng', DG, "        if self._seed is not None:\n            np.random.seed(self._seed)\n\n        for _ in range",
+         "        rng = np.random.RandomState(self._seed)\n\n        for _ in range",
+         also=[(DG, "np.random.uniform(lower, upper)", "rng.uniform(lower, upper)")]),
+    Twin('twin-seed-sampling-rng-in-setup', SU, "        if self._seed is not None:\n            np.random.seed(self._seed)\n",
+         "        self._rng = np.random.default_rng(self._seed)\n",
+         also=[(SU, "np.random.uniform(meta['lower']", "self._rng.uniform(meta['lower']")]),
 )
